@@ -195,6 +195,7 @@ func NewEngine(p *Program, solver string, timeoutMs int) (*Engine, error) {
 	registerReflectModel(e)
 	registerConstModel(e)
 	registerBigIntrinsics(e)
+	registerConstraintModel(e)
 	return e, nil
 }
 
@@ -432,7 +433,7 @@ func (e *Engine) implements(t types.Type, it *types.Interface) bool {
 		}
 		return it.NumMethods() == 0
 	}
-	if t == rtypeDyn || t == opaqueDyn {
+	if t == rtypeDyn || t == opaqueDyn || t == constraintExprDyn {
 		return true
 	}
 	return types.Implements(t, it)
